@@ -83,6 +83,14 @@ func AttemptCase(r *u.Rng) (term, label string, nontrivial bool) {
 			j.Pods = append(j.Pods, core.PodSpec{Name: fmt.Sprintf("g-%d", np), Cpu: 250, Mem: 1 << 30, Gpus: 1, Status: pod_status.Running, Node: n, SubGroup: sg})
 			placed++
 		}
+		// a terminating pod of the gang's own pod set (a restart whose replacement is already pending): it still
+		// holds its GPU, counts as active-used but not as active-allocated
+		if r.Chance(1, 3) {
+			if n := take(); n != "" {
+				np++
+				j.Pods = append(j.Pods, core.PodSpec{Name: fmt.Sprintf("g-%d", np), Cpu: 250, Mem: 1 << 30, Gpus: 1, Status: pod_status.Releasing, Node: n, SubGroup: sg})
+			}
+		}
 		pending := min - placed
 		if nsets == 1 {
 			pending += r.Range(0, 2) // elastic surplus
